@@ -48,6 +48,7 @@ _Q_BOUNDS = ('EventQueue<int, ...> with 2 event keys; K=%d top-level steps from 
              'payload value symbolic 32-bit, predicate verdict = function of the symbolic payload; RA=%d re-entrant operation(s) (enqueue/processOne/takeEvent/clearEvents/process) issued from a listener or predicate; payload kind: %s')
 PROPS['C05'] = Prop(
     quick=[Run('q_history_k3_int', 'q_history.cpp', {'KK': 3, 'RA': 1, 'PAYLOAD': 0}, covers=11, optional_covers=(11, 12), bounds=_Q_BOUNDS % (3, 1, 'two uint32_t by value')),
+           Run('q_history_k2_byvalue', 'q_history.cpp', {'KK': 2, 'RA': 1, 'PAYLOAD': 1}, covers=11, optional_covers=(11, 12, 0, 2, 9), bounds=_Q_BOUNDS % (2, 1, 'copyable tracked object BY VALUE in the prototype (a moved-from payload is recognisable)')),
            Run('q_history_k3_moveonly', 'q_history.cpp', {'KK': 3, 'RA': 0, 'PAYLOAD': 3}, covers=11, optional_covers=(11, 12, 4, 5, 7), bounds=_Q_BOUNDS % (3, 0, 'move-only tracked object by const reference'))],
     thorough=[Run('q_history_k4_int', 'q_history.cpp', {'KK': 4, 'RA': 1, 'PAYLOAD': 0}, covers=11, optional_covers=(11, 12), budget_s=1700, bounds=_Q_BOUNDS % (4, 1, 'two uint32_t by value')),
               Run('q_history_k4_byvalue', 'q_history.cpp', {'KK': 4, 'RA': 0, 'PAYLOAD': 1}, covers=11, optional_covers=(11, 12, 4, 5), budget_s=1700, bounds=_Q_BOUNDS % (4, 0, 'copyable tracked object by value')),
@@ -90,11 +91,12 @@ PROPS['C13'] = Prop(
 _CM = ('%s: up to 3 objects in storage pre-filled with arbitrary (symbolic) bytes; source built by append+prepend%s; K=%d steps from add / remove-first (heter: prepend) / copy-construct / move-construct / '
        'copy-assign (incl. self) / move-assign / swap (incl. self)%s; after every step every live object is invoked (symbolic arguments) and compared with its own model')
 def _cm(name, objk, k, cls, extra='', q='', **kw):
-    return Run(name, 'copymove.cpp', {'KK': k, 'OBJ': objk}, covers=9, bounds=_CM % (cls, extra, k, q), **kw)
+    oc = tuple(kw.pop('optional_covers', ())) + ((9, 10) if objk != 2 else ())
+    return Run(name, 'copymove.cpp', {'KK': k, 'OBJ': objk}, covers=11, optional_covers=oc, bounds=_CM % (cls, extra, k, q), **kw)
 PROPS['C10'] = Prop(
     quick=[_cm('copymove_cl_k3', 0, 3, 'CallbackList', ', generation counter at a symbolic position', optional_covers=(8,)),
            _cm('copymove_disp_k2', 1, 2, 'EventDispatcher', optional_covers=(7, 8)),
-           _cm('copymove_queue_k3', 2, 3, 'EventQueue', q=' / enqueue / process; emptyQueue() and waitFor(0) checked on every object'),
+           _cm('copymove_queue_k3', 2, 3, 'EventQueue', q=' / enqueue / process / copy-construct from inside a listener during process() / copy-construct while a DisableQueueNotify guard is alive; emptyQueue() and waitFor(0) checked on every object'),
            _cm('copymove_hcl_k2', 3, 2, 'HeterCallbackList (2 prototypes)', optional_covers=(7, 8)),
            _cm('copymove_hdisp_k2', 4, 2, 'HeterEventDispatcher', optional_covers=(7, 8)),
            _cm('copymove_hqueue_k2', 5, 2, 'HeterEventQueue', q=' / enqueue / process', optional_covers=(7, 8))],
@@ -150,12 +152,14 @@ _RT = ['int key, prototype void(int, Val), event included (AutoDetect)', 'int ke
        'getEvent policy (const Ev&, const Val&)', 'getEvent policy taking its parameters by value', 'enum class key, ArgumentPassingIncludeEvent', 'std::string key (20 chars, beyond SSO) by value', 'event excluded from the prototype with a non-identity getEvent policy (code >> 8)']
 _MK = ['default map', 'std::map', 'std::unordered_map']
 def _rt(cfg, mapk, **kw):
-    return Run('routing_cfg%d_map%d' % (cfg, mapk), 'disp_routing.cpp', {'CFG': cfg, 'MAPK': mapk}, covers=6, native=('gxx-O0-san', 'gxx-O2', 'clang-O1'),
-               bounds='EventDispatcher, %s, %s; two registered keys (2 listeners each: one by value that consumes its copy, one by const reference) and the dispatched key are %s; payload symbolic; dispatched from temporaries and from lvalues'
+    d = {'CFG': cfg, 'MAPK': mapk}; viaq = kw.pop('viaqueue', False)
+    if viaq: d['VIAQUEUE'] = None
+    return Run('routing_cfg%d_map%d%s' % (cfg, mapk, '_queue' if viaq else ''), 'disp_routing.cpp', d, covers=6, native=('gxx-O0-san', 'gxx-O2', 'clang-O1'),
+               bounds=('EventQueue (every dispatch = enqueue + process), ' if viaq else 'EventDispatcher, ') + '%s, %s; two registered keys (2 listeners each: one by value that consumes its copy, one by const reference) and the dispatched key are %s; payload symbolic; dispatched from temporaries and from lvalues'
                       % (_RT[cfg], _MK[mapk], 'symbolic 32-bit values (8 significant bits with hashed maps)' if cfg != 6 else 'chosen among 4 strings'), **kw)
 PROPS['C04'] = Prop(
-    quick=[_rt(0, 1), _rt(1, 0), _rt(2, 1), _rt(3, 2), _rt(4, 1), _rt(5, 1), _rt(7, 1)],
-    thorough=[_rt(c, m) for c in (0, 1, 2, 3, 4, 5, 7) for m in range(3) if not (c == 7 and m != 1)] + [_rt(6, 1, optional_covers=(3,)), _rt(6, 0, optional_covers=(3,))],
+    quick=[_rt(0, 1), _rt(1, 0), _rt(2, 1), _rt(3, 2), _rt(4, 1), _rt(5, 1), _rt(7, 1), _rt(2, 1, viaqueue=True), _rt(3, 1, viaqueue=True)],
+    thorough=[_rt(c, m) for c in (0, 1, 2, 3, 4, 5, 7) for m in range(3) if not (c == 7 and m != 1)] + [_rt(c, 1, viaqueue=True) for c in (0, 1, 2, 3, 4, 5)] + [_rt(6, 1, optional_covers=(3,)), _rt(6, 0, optional_covers=(3,))],
     outside='more than two registered keys; per-event listener histories beyond append (those are C01/C02 on the per-event CallbackList); compilers other than clang-14 are covered only by native replay of the witness paths (g++ -O0/-O2, clang++ -O1), not by the solver',
     assumptions=['Callback type is std::function; listeners of one event take the payload by value (and move from their copy) and by const reference',
                  'a witness path on which a g++ build violates an assertion while the clang build and the engine agree is reported as a violation (compiler-dependent behaviour)'])
@@ -306,9 +310,11 @@ _C20Q = [
     _cfg('c20_routing_movekey_hash_cxx11', 'disp_routing.cpp', {'CFG': 2, 'MAPK': 0}, 'c++11', None, 'C04 MoveKey by value, default (hashed) map', 6, native=('gxx-O0-san', 'gxx-O2', 'clang-O1')),
     _cfg('c20_routing_int_hash_cxx20_O2', 'disp_routing.cpp', {'CFG': 0, 'MAPK': 2}, 'c++20', 'O2', 'C04 int key, unordered_map', 6, native=('gxx-O0-san', 'gxx-O2', 'clang-O1')),
     _cfg('c20_routing_policy_map_cxx14_O0', 'disp_routing.cpp', {'CFG': 3, 'MAPK': 1}, 'c++14', 'O0', 'C04 getEvent policy, std::map', 6, native=('gxx-O0-san', 'gxx-O2', 'clang-O1')),
-    _cfg('c20_copymove_queue_single_cxx11', 'copymove.cpp', {'KK': 2, 'OBJ': 2, 'THREADING': _ST}, 'c++11', None, 'C10 EventQueue K=2, SingleThreading (its Atomic has no initialising default constructor), pre-filled storage', 9, (7, 8)),
-    _cfg('c20_copymove_queue_multi_cxx17', 'copymove.cpp', {'KK': 2, 'OBJ': 2, 'THREADING': _MT}, 'c++17', None, 'C10 EventQueue K=2, MultipleThreading (std::atomic default constructor leaves the value indeterminate before C++20), pre-filled storage', 9, (7, 8)),
-    _cfg('c20_copymove_hqueue_multi_cxx20', 'copymove.cpp', {'KK': 2, 'OBJ': 5, 'THREADING': _MT}, 'c++20', 'O2', 'C10 HeterEventQueue K=2, MultipleThreading', 9, (7, 8)),
+    _cfg('c20_routing_movekey_queue_cxx14', 'disp_routing.cpp', {'CFG': 2, 'MAPK': 1, 'VIAQUEUE': None}, 'c++14', None, 'C04 through an EventQueue (enqueue + process), MoveKey by value, std::map', 6, native=('gxx-O0-san', 'gxx-O2', 'clang-O1')),
+    _cfg('c20_routing_policy_queue_cxx11', 'disp_routing.cpp', {'CFG': 3, 'MAPK': 0, 'VIAQUEUE': None}, 'c++11', 'O2', 'C04 through an EventQueue, getEvent policy, default map', 6, native=('gxx-O0-san', 'gxx-O2', 'clang-O1')),
+    _cfg('c20_copymove_queue_single_cxx11', 'copymove.cpp', {'KK': 2, 'OBJ': 2, 'THREADING': _ST}, 'c++11', None, 'C10 EventQueue K=2, SingleThreading (its Atomic has no initialising default constructor), pre-filled storage', 11, (7, 8, 9, 10)),
+    _cfg('c20_copymove_queue_multi_cxx17', 'copymove.cpp', {'KK': 2, 'OBJ': 2, 'THREADING': _MT}, 'c++17', None, 'C10 EventQueue K=2, MultipleThreading (std::atomic default constructor leaves the value indeterminate before C++20), pre-filled storage', 11, (7, 8, 9, 10)),
+    _cfg('c20_copymove_hqueue_multi_cxx20', 'copymove.cpp', {'KK': 2, 'OBJ': 5, 'THREADING': _MT}, 'c++20', 'O2', 'C10 HeterEventQueue K=2, MultipleThreading', 11, (7, 8, 9, 10)),
 ]
 PROPS['C20'] = Prop(
     quick=_C20Q,
@@ -321,9 +327,9 @@ PROPS['C20'] = Prop(
     _cfg('c20_q_single_cxx11_O0', 'q_history.cpp', {'KK': 4, 'RA': 1, 'PAYLOAD': 2, 'THREADING': _ST, 'HAVOC': None}, 'c++11', 'O0', 'C05 K=4 RA=1, SingleThreading, payload by reference', 11, (11, 12), budget_s=1700),
     ] + [_cfg('c20_routing_cfg%d_map%d_%s' % (c, m_, sd.replace('+', 'x')), 'disp_routing.cpp', {'CFG': c, 'MAPK': m_}, sd, o, 'C04 configuration %d, map kind %d' % (c, m_), 6, native=('gxx-O0-san', 'gxx-O2', 'clang-O1'))
          for (c, m_, sd, o) in [(0, 0, 'c++11', 'O2'), (1, 1, 'c++14', None), (1, 2, 'c++20', 'O0'), (4, 0, 'c++11', None), (5, 2, 'c++14', 'O2'), (7, 1, 'c++20', None), (2, 2, 'c++17', 'O0'), (3, 0, 'c++20', 'O2')]] + [
-    _cfg('c20_copymove_cl_single_cxx14', 'copymove.cpp', {'KK': 3, 'OBJ': 0, 'THREADING': _ST}, 'c++14', 'O2', 'C10 CallbackList K=3 SingleThreading', 9, (8,), budget_s=1700),
-    _cfg('c20_copymove_disp_multi_cxx11', 'copymove.cpp', {'KK': 3, 'OBJ': 1, 'THREADING': _MT}, 'c++11', None, 'C10 EventDispatcher K=3 MultipleThreading', 9, (8,), budget_s=1700),
-    _cfg('c20_copymove_queue_spin_cxx20', 'copymove.cpp', {'KK': 3, 'OBJ': 2, 'THREADING': _SL}, 'c++20', 'O2', 'C10 EventQueue K=3 SpinLock', 9, budget_s=1700)],
+    _cfg('c20_copymove_cl_single_cxx14', 'copymove.cpp', {'KK': 3, 'OBJ': 0, 'THREADING': _ST}, 'c++14', 'O2', 'C10 CallbackList K=3 SingleThreading', 11, (8, 9, 10), budget_s=1700),
+    _cfg('c20_copymove_disp_multi_cxx11', 'copymove.cpp', {'KK': 3, 'OBJ': 1, 'THREADING': _MT}, 'c++11', None, 'C10 EventDispatcher K=3 MultipleThreading', 11, (8, 9, 10), budget_s=1700),
+    _cfg('c20_copymove_queue_spin_cxx20', 'copymove.cpp', {'KK': 3, 'OBJ': 2, 'THREADING': _SL}, 'c++20', 'O2', 'C10 EventQueue K=3 SpinLock', 11, (9, 10), budget_s=1700)],
     outside='(a) solver-decided: only the listed cells of Threading x Map x Callback x ArgumentPassing x -std x clang optimisation level (quick: a covering subset; thorough: more cells, not the full product). '
             '(b) NOT solver-decided: other compilers. g++ 12 (-O0, -O2) and clang++ 14 are reached only by native replay of the witness paths of every run, comparing observation traces; "any conforming compiler" is beyond what can be encoded with the tools present',
     assumptions=['every cell is checked against the same reference model as its underlying property, hence all cells agree with each other',
